@@ -8,6 +8,7 @@ from ..ref import adsb as radsb
 from ..ref import bits
 
 LEVEL = "exploration"
+BRANCH_TARGETS = ['pyModeS.decoder.bds.bds09:airborne_velocity', 'pyModeS.decoder.bds.bds09:altitude_diff', 'pyModeS.decoder.bds.bds06:surface_velocity', 'pyModeS.decoder.adsb:velocity', 'pyModeS.decoder.adsb:speed_heading']
 TECHNIQUE = 'runtime monitoring: DO-260B ME builder as oracle on real velocity decoders, exhaustive field sweeps'
 LEVEL_TEXT = 'Exhaustive over subtype x sign x each 10-bit field, vertical rate, difference and the 128x2x128 surface cells; the cross product of the two 10-bit fields is sampled.'
 EXHAUSTIVE = True
